@@ -21,3 +21,5 @@ mod c05_size;
 mod c11_vecops;
 #[cfg(kani)]
 mod c12_flex;
+#[cfg(kani)]
+mod c12_hist;
